@@ -15,7 +15,7 @@ Q = 8380417
 
 
 def main():
-    cap = int(sys.argv[1]) if len(sys.argv) > 1 else 160000
+    cap = int(sys.argv[1]) if len(sys.argv) > 1 else 48000
     xi = '5a' * 32
     out = {'xi': xi, 'ctx': '', 'rnd': '00' * 32, 'note': __doc__.split('\n')[0], 'cases': {}}
     for s, g2 in G2.items():
@@ -31,7 +31,7 @@ def main():
                     for k in mm.group(1).split(','):
                         found.setdefault(int(k), m)
             start += 16000
-            print(s, 'messages', start, 'edges found', len(found), '/', nk, flush=True)
+            print(s, 'messages', start, 'edges found', len(found), '/', nk, 'missing', [k for k in range(nk) if k not in found], flush=True)
         out['cases'][s] = {str(k): found[k] for k in sorted(found)}
     with open(os.path.join(core.VERIF, 'corpus', 'bucket_edges.json'), 'w') as f:
         json.dump(out, f, indent=1)
